@@ -10,7 +10,7 @@ import math
 from .geom import enc, well_id
 from .world import COMPONENTS, snap, snap_down
 
-LABELS = [None, None, "", "step", "mix 1", "Transfer µL", "two\nlines", " padded label ", "L" * 40, "100%", "add {M9}", "{}", "50 % (v/v) }", "3 LVH steps", "prep (2 LVH steps)", "t", "st", "a"]
+LABELS = [None, None, "", "step", "mix 1", "Transfer µL", "two\nlines", "win\r\nlines", " padded label ", "L" * 40, "100%", "add {M9}", "{}", "50 % (v/v) }", "3 LVH steps", "prep (2 LVH steps)", "t", "st", "a"]
 LIQUID_CLASSES = ["", "Water_DispZmax", "lc 1", "Ethanol"]
 WASHES = [1, 1, 2, 3, 4, "flush", "reuse"]
 WASHES_DEPRECATED = WASHES + WASHES + [None]  # None: deprecated, documented to behave like "reuse"
@@ -718,7 +718,7 @@ class Gen:
         rng = self.rng
         r = rng.random()
         if r < 0.3:
-            return {"op": "comment", "text": rng.choice(["hello", "µL step", "a\nb", "  padded  ", "", "x" * 40])}
+            return {"op": "comment", "text": rng.choice(["hello", "µL step", "a\nb", "  padded  ", "", "x" * 40, "win\r\nlines\r\n"])}
         if r < 0.5:
             return {"op": "wash", "scheme": rng.randint(1, 4)}
         if r < 0.65:
